@@ -1,0 +1,13 @@
+//go:build verif
+
+package diff
+
+// VerifLCS exposes the edit script computed by lcs to the verification harness (/verif):
+// one (del, ins, eq) triple per chunk.
+func VerifLCS(a, b []int) [][3]int {
+	var ret [][3]int
+	for _, c := range lcs(a, b) {
+		ret = append(ret, [3]int{c.del, c.ins, c.eq})
+	}
+	return ret
+}
